@@ -1,5 +1,6 @@
 import Driver.Kernels
 import Driver.Transforms
+import Driver.Cable
 open Driver
 
 def handle (line : String) : String :=
@@ -10,6 +11,7 @@ def handle (line : String) : String :=
   | "specdefaults" :: rest => handleSpecDefaults rest
   | "tff" :: rest => handleTf true rest
   | "tfi" :: rest => handleTf false rest
+  | "cable" :: rest => handleCable rest
   | "ping" :: _ => "pong"
   | _ => "bad-op"
 
